@@ -125,7 +125,10 @@ theorem cpr_drs_weights_indep_get_app (A : CRS K) (p : Params K) (N ip : Nat) (s
   simp only
   rw [passLoop_mode]
 
+-- non-vacuity: block row 0 of the example, weights `(1, 0)` in both modes
 example : (passRow C18bEx.Ad C18bEx.pD 4 0 true (Acc.zero 2)).1.w = #[1, 0] := by decide +kernel
+example : (passRow C18bEx.Ad C18bEx.pD 4 0 true (Acc.zero 2)).1.w = (passRow C18bEx.Ad C18bEx.pD 4 0 false (Acc.zero 2)).1.w :=
+  cpr_drs_weights_indep_get_app C18bEx.Ad C18bEx.pD 4 0 (Acc.zero 2)
 
 /-- **a partial update with an unchanged matrix leaves the object — hence its action — unchanged**, with or without
 `update_transfer_ops` (scalar input, rows with strictly increasing columns) -/
@@ -184,7 +187,11 @@ theorem cpr_drs_app_widths_consistent (A : CRS K) (p : Params K) :
       (List.range (scalarState A p).np).map (fun ip => ((scalarState A p).App.row ip).length) :=
   scalarState_widths A p
 
+-- non-vacuity: both block rows of the example have two active blocks
 example : (scalarState C18bEx.Ad C18bEx.pD).appWidths = [2, 2] := by decide +kernel
+example : (scalarState C18bEx.Ad C18bEx.pD).appWidths =
+    (List.range (scalarState C18bEx.Ad C18bEx.pD).np).map (fun ip => ((scalarState C18bEx.Ad C18bEx.pD).App.row ip).length) :=
+  cpr_drs_app_widths_consistent C18bEx.Ad C18bEx.pD
 
 end drs
 
